@@ -56,8 +56,8 @@ fn default_runs(prop: Prop, tier: Tier) -> u64 {
         Prop::C07 => (2_000_000, 50_000_000),
         Prop::C08 => (3_000_000, 50_000_000),
         Prop::C09 => (3_000_000, 50_000_000),
-        Prop::C10 => (1_000_000, 30_000_000),
-        Prop::C16 => (400_000, 12_000_000),
+        Prop::C10 => (400_000, 12_000_000),
+        Prop::C16 => (300_000, 10_000_000),
     };
     match tier {
         Tier::Quick => q,
